@@ -117,8 +117,9 @@ def _parse_xml_string(xml_string, parser, charset=None):
     if charset:
         try:
             string = string.decode(charset)
-        except (UnicodeError, LookupError) as e:
-            # wrong or unknown charset in the request's content type
+        except (ValueError, LookupError) as e:
+            # wrong or unknown charset in the request's content type, or one
+            # that is no name at all (ValueError: embedded null character)
             raise Fault('Client.XMLSyntaxError', str(e))
 
     try:
@@ -128,7 +129,13 @@ def _parse_xml_string(xml_string, parser, charset=None):
         except ValueError as e:
             logger.debug('ValueError: Deserializing from unicode strings with '
                          'encoding declaration is not supported by lxml.')
-            root, xmlids = etree.XMLID(string.encode(charset), parser)
+            try:
+                string = string.encode(charset)
+            except (ValueError, LookupError) as e:
+                # not every codec that decodes encodes what it decoded
+                raise Fault('Client.XMLSyntaxError', str(e))
+
+            root, xmlids = etree.XMLID(string, parser)
 
     except XMLSyntaxError as e:
         logger_invalid.error("%r in string %r", e, string)
